@@ -203,9 +203,16 @@ class C11(World):
         for _ in range(swarm["n_problems"]):
             x = pr.random()
             if x < swarm["p_invalid"]:
-                kind = pr.choice(["no_streams", "utility_zone_tree", "area_unbalanced"])
+                kind = pr.choice(["no_streams", "utility_zone_tree", "area_unbalanced", "indirect_process"] + (["hp_targeting"] if pr.random() < (0.2 if self.tier == "thorough" else 0.02) else []))
                 if kind == "no_streams":
                     p = dict(streams=[], utilities=[])
+                elif kind == "indirect_process":
+                    p = problems.generate(pr, small=True)
+                    p["options"] = dict(DO_INDIRECT_PROCESS_TARGETING=True)
+                elif kind == "hp_targeting":
+                    # heat-pump targeting runs for seconds and then fails deep inside the pipeline: a natural failure with lots of state in flight
+                    p = problems.generate(pr, small=True, max_streams=4)
+                    p["options"] = {pr.choice(["DO_PROCESS_HP_TARGETING", "DO_UTILITY_HP_TARGETING"]): True}
                 elif kind == "utility_zone_tree":
                     p = problems.generate(pr, small=True)
                     p["zone_tree"] = dict(name="U", type="Utility Zone", children=None)
